@@ -52,7 +52,7 @@ CHECKS = {
     "C17": dict(level="fault_enumeration", engine="fakeredis+hooks",
         technique="crash sweep over every request prefix of each bookkeeping maintenance operation (real start-up bookkeeping and GC body through build-tag hooks); next start with the new configuration must find a position >= the one before, in the same DB",
         text="Checkpoint rename, re-key after failover (newOutput and SetRunId), bisync replay-mode switches (all six pairs, states produced by the real tool), stale-checkpoint GC at "
-             "five clock positions; 1-8 non-empty DBs, map-order sampling by repetition; exhaustive per observed request sequence.",
+             "five clock positions; 1-8 non-empty DBs, map-order sampling by repetition; exhaustive per observed request sequence. In-process re-key (SetRunId) additionally with each single request answered by an error once, followed by the tool's own retry.",
         design="DESIGN.md §3 C17", note=TRUST + "; HGETALL order of the double is sorted (ids constrained so both orders agree)"),
     "C19": dict(level="exploration", engine="fakeredis cluster role",
         technique="runtime monitor: globally ordered per-node effect logs of a multi-node cluster double (routing by independent HASH_SLOT, MIGRATING/IMPORTING/ASK/MOVED/TRYAGAIN semantics) under scripted migration schedules; per-key segment oracle + resume-position clause",
@@ -109,6 +109,12 @@ CHECKS = {
         text="2-6 contenders with own connections against a lease-store double that executes the tool's Lua scripts (interpreter), virtual clock "
              "advanced only at quiescent points, reply loss and connection resets; porcupine linearizability per burst and whole-run invariants.",
         design="DESIGN.md §3 C15", note="internal/leasestore + internal/minilua execute the scripts the tool sends; Redis expiry rule now > expireAt"),
+    "C18": dict(level="exploration", engine="fakeredis cluster role",
+        technique="runtime monitor over the cluster-wide request log of a 3-4 node cluster double driven by the real bisync RedisOutput (snapshot + stream, all replay modes); every MULTI block reconstructed per node/connection and judged by independent HASH_SLOT and key-position tables",
+        text="Generated snapshots and streams with 23 brace shapes / 8 key classes; units: single-slot, GETKEYS-resolved, filter-reduced, filtered-out, cross-slot, undeterminable, behind a refusal; "
+             "oracle: each block touches one slot at its owner (business + marker/latest/commit/index control keys), no redirect served, single-slot units commit exactly, refusable units end Send with an error and nothing of them or later units is sent. "
+             "Refusal-report probes repeat the cheapest refusal many times (race between parser error and sender nil).",
+        design="DESIGN.md §3 C18", note="slots and key positions from internal/ref; the double enforces slot ownership; gates on logical events (EXEC applied), not timers; " + TRUST),
 }
 
 NA_REASON = "check not built yet (in progress)"
